@@ -32,6 +32,8 @@ def pred_sql(p):
 
 
 RETURNING = " RETURNING id, a, b"
+# how the model's Checkpoint step is issued: the API call (default) or the statement PRAGMA wal_checkpoint (set by C04)
+CHECKPOINT_OPS = [{"k": "checkpoint"}]
 DML = ("insert", "update", "delete", "truncate", "upsert")
 
 
@@ -86,7 +88,7 @@ def op_sql(op, table="t", returning=False):
     if k == "reopen":
         return [{"k": "reopen"}]
     if k == "checkpoint":
-        return [{"k": "checkpoint"}]
+        return list(CHECKPOINT_OPS)
     if k == "begin":
         return [{"k": "exec", "sql": "BEGIN"}]
     if k == "commit":
